@@ -5,7 +5,7 @@ Require Import ExtrOcamlBasic.
 From V Require Import Base Delay DelayParse.
 Extraction Language OCaml.
 Extraction "vmodel.ml"
-  dv_pinned dv_window dv_repaired Build_dvariant
+  dv_pinned dv_window dv_repaired dv_arms_first Build_dvariant complete_b finished
   init dstep step_or_stay run pick_min deadlocked quiescent classify armed_list
   delay_admissibleb nodup_N delivered not_early_b routed_b due_sorted_b timer_dues cancel_ok_b wf_prog
   delay_parse delay_spec num_attr parse_u32 parse_double dpv_pinned dpv_fixed Build_dp_variant.
